@@ -128,7 +128,9 @@ func newEnv(seed uint64) *env {
 
 func hs(s string) string { return hx.Hex([]byte(s)) }
 
-var words = []string{"a", "b", "A", "", "a b", "é", "é", "%", "+", "&", "=", "?", "a+b", "ä", "z", "😀", "%41", "%zz", "1", "c", "#", "/", "x=y", "~", "*", " "}
+var words = []string{"a", "b", "A", "", "a b", "é", "é", "%", "+", "&", "=", "?", "a+b", "ä", "z", "😀", "%41", "%zz", "1", "c", "#", "/", "x=y", "~", "*", " ",
+	// the URL standard sorts by UTF-16 code units: characters beyond U+FFFF sort before U+E000..U+FFFF
+	"\uffff", "\ue000", "\U00010000", "a\U00010000", "a\uffff", "\ufffd"}
 
 func (e *env) word() string {
 	if e.rng.Chance(60) {
@@ -239,6 +241,9 @@ func (e *env) genC12() c12case {
 		// special-case (library sorts switch algorithm at 12 elements and again around 50)
 		n := 13 + e.rng.Intn(60)
 		names := []string{"b", "a", "c", "é", "a b", "", "B"}[:2+e.rng.Intn(6)]
+		if e.rng.Chance(30) {
+			names = []string{"\uffff", "\U00010000", "😀", "\ue000", "z"}[:2+e.rng.Intn(4)]
+		}
 		var ps [][]string
 		for i := 0; i < n; i++ {
 			ps = append(ps, []string{names[e.rng.Intn(len(names))], fmt.Sprintf("v%d", i)})
